@@ -49,6 +49,13 @@ func (s *StorageClient) Set(key string, item *mc.Item, noreply bool) (bool, erro
 	if !store.IsValidKeyString(key) {
 		return false, nil
 	}
+	if item.Exptime < 0 {
+		// a negative revision turns the set into a delete; the store never
+		// accounts for (or frees) a value that comes with a delete, so drop the
+		// value here (tofree) and issue the delete without it
+		suc, err := s.Delete(key)
+		return suc, err
+	}
 	ki := s.prepare(key, false)
 	payload := &store.Payload{}
 	payload.Flag = uint32(item.Flag)
